@@ -96,9 +96,16 @@ CHECKS.update({
              "state against a reference list model.",
         technique="contract-based deductive verification (heap as arrays, ghost sequence and position map, representation invariants; "
                   "SMT, two back ends per obligation) + bounded stand-in (operation histories)"),
- "C10": bounded_only("generated documents with unique / duplicated names x histories of order_*, sort_fields, indexed and unindexed set/delete, "
-        "insert/append are compared byte-wise and structurally with a reference model of field texts; every (name, i) is resolved;",
-        "DESIGN.md §5 C10"),
+ "C10": dict(bounded_only("", "DESIGN.md §5 C10"),
+        text="The ordering machinery the structural edits are built on is proved from the real AST of debian._util (same contracts as "
+             "C09): the OrderedSet that IS the field order of a paragraph without duplicated fields (its order_* methods delegate to "
+             "OrderedSet.order_*) and the LinkedList under it and under the element lists move exactly the named item and keep every "
+             "other item's relative order. The paragraph / file element classes themselves (duplicate-field relocation, index "
+             "semantics, set / remove / insert / append, separators and final newlines) are decided by a bounded stand-in: generated "
+             "documents with unique / duplicated names x histories of order_*, sort_fields, indexed and unindexed set/delete, "
+             "insert/append, compared byte-wise and structurally with a reference model of field texts.",
+        technique="contract-based deductive verification of the ordering containers (heap as arrays, representation invariants; SMT) + "
+                  "bounded stand-in (reference-model comparison over generated documents and histories)"),
  "C20": bounded_only("histories of read/insert/derivations are run on the real DB and on a reference model that shares and copies set objects as "
         "documented; every live collection is compared after every step; the recorded findings are re-demonstrated by their specific histories;",
         "DESIGN.md §5 C20"),
